@@ -73,6 +73,9 @@ ABORTED = [
     ['options', '\\olegacy*[a'], ['options', '\\begin{oenv}(a'],
     ['default', '\\begin{lstlisting}[a]b{\\end{lstlisting}\\verb|x|'], ['default', '\\begin{lstlisting}[a'],
     ['default', '\\verb|x'],
+    # the same argument letter with different parser options inside one context: the line-break
+    # macro's optional argument does not accept blanks before it, every other [ does
+    ['default', '\\item[x] \\sqrt[3]{z} \\section* [Short]{t}'], ['default', 'a\\\\ [C,D] b\\\\[2mm] c'],
     ['extdelta2', '\\begin{defenv}\\entry[a]b\\end{defenv}\\entry[c]'],
     ['extdelta2', '\\entry[b]\\auto[x]{y}\\begin{defenvb}[o]\\entry{a}{b}\\end{defenvb}'],
 ]
